@@ -3,6 +3,7 @@
 From Coq Require Import Permutation.
 From GV Require Import Prelude GeomM GeomP GeomP2 GeomP3.
 Open Scope Z_scope.
+Set Default Timeout 15.
 
 Definition rot (k : nat) (o : list pt) : list pt := skipn k o ++ firstn k o.
 Definition swap_seg (e : seg) : seg := (snd e, fst e).
@@ -58,7 +59,8 @@ Proof.
   rewrite <- !app_assoc. cbn [app].
   change (pairs (b :: l2 ++ a :: l1 ++ [b])) with (pairs ((b :: l2) ++ a :: l1 ++ [b])).
   change (pairs (a :: l1 ++ b :: l2 ++ [a])) with (pairs ((a :: l1) ++ b :: l2 ++ [a])).
-  rewrite !pairs_app. apply Permutation_app_comm.
+  rewrite (pairs_app (b :: l2) a (l1 ++ [b])), (pairs_app (a :: l1) b (l2 ++ [a])).
+  apply Permutation_app_comm.
 Qed.
 
 Lemma cyc_edges_rot k o : Permutation (cyc_edges (rot k o)) (cyc_edges o).
